@@ -194,6 +194,8 @@ pub fn run(args: Args) -> ! {
     enum Expect {
         Doc { text: String, expected: Option<Tbl>, ambiguous: bool, overlimit: bool },
         Tree(Tbl),
+        /// a call history on toml::Table with the key order expected under preserve_order and without
+        Ops { insertion: String, sorted: String },
     }
     let mut expects: Vec<Expect> = vec![];
     let fx = crate::corpus::load();
@@ -227,6 +229,40 @@ pub fn run(args: Args) -> ! {
                     lines.push(format!("DOC {}", hex(&text)));
                     expects.push(Expect::Doc { text, expected: None, ambiguous: true, overlimit: false });
                 }
+            }
+            6 => {
+                // a call history on toml::Table (insert / remove / entry-remove over a small key pool)
+                let keys = ["b", "a", "d", "c", "e", "exactly-15-bytes", "sixteen-bytes-xx"];
+                let n = 3 + t.below(12);
+                let mut line = String::from("OPS ");
+                let mut model: Vec<(String, i64)> = vec![];
+                for j in 0..n {
+                    let k = t.pick(&keys).to_string();
+                    let val = j as i64 + 1;
+                    match t.weighted(&[5, 2, 2]) {
+                        0 => {
+                            line.push_str(&format!("i{};", hex(&k)));
+                            if let Some(e) = model.iter_mut().find(|e| e.0 == k) {
+                                e.1 = val;
+                            } else {
+                                model.push((k, val));
+                            }
+                        }
+                        1 => {
+                            line.push_str(&format!("r{};", hex(&k)));
+                            model.retain(|e| e.0 != k);
+                        }
+                        _ => {
+                            line.push_str(&format!("e{};", hex(&k)));
+                            model.retain(|e| e.0 != k);
+                        }
+                    }
+                }
+                let fmt = |m: &Vec<(String, i64)>| m.iter().map(|(k, v)| format!("{k:?}={v}")).collect::<Vec<_>>().join(",");
+                let insertion = fmt(&model);
+                model.sort_by(|a, b| a.0.cmp(&b.0));
+                lines.push(line);
+                expects.push(Expect::Ops { insertion, sorted: fmt(&model) });
             }
             5 => {
                 // nesting beyond the limit: accepted under `unbounded` only
@@ -331,6 +367,7 @@ pub fn run(args: Args) -> ! {
         let nontrivial = match e {
             Expect::Doc { text, .. } => text.len() > 0 && (text.contains("long") || text.contains("bytes") || text.matches("a").count() > 3),
             Expect::Tree(t) => t.entries.len() >= 2,
+            Expect::Ops { insertion, sorted } => insertion != sorted,
         };
         if nontrivial {
             rep.stats.nontrivial(fnv64(lines[i].as_bytes()));
@@ -345,13 +382,13 @@ pub fn run(args: Args) -> ! {
             reported += 1;
         };
         // tags compared for equality across configurations of the same class
-        for tag in ["P", "R", "TP", "D", "B", "TD", "TB", "TO", "TR"] {
+        for tag in ["P", "R", "TP", "D", "B", "TD", "TB", "TO", "TR", "TM"] {
             let mut groups: BTreeMap<String, Vec<(&str, &String)>> = BTreeMap::new();
             for (name, m) in &tables {
                 if let Some(v) = m.get(&(i, tag.to_string())) {
                     // documented exceptions define the comparison class
                     let class = match tag {
-                        "TO" | "TR" | "TD" | "TB" => format!("po={}", is_po(name)),
+                        "TO" | "TR" | "TD" | "TB" | "TM" => format!("po={}", is_po(name)),
                         "P" | "TP" | "R" if matches!(e, Expect::Doc { overlimit: true, .. }) => format!("unbounded={}", is_unbounded(name)),
                         _ => String::new(),
                     };
@@ -362,7 +399,7 @@ pub fn run(args: Args) -> ! {
                 if let Some((n0, v0)) = vs.first() {
                     for (n, v) in &vs[1..] {
                         if v != v0 {
-                            fail(&mut rep, format!("item {i} tag {tag} [{class}]: configuration `{n0}` gives {:?} but `{n}` gives {:?}\nitem: {}", unhex(v0.trim_start_matches("ok ")).chars().take(300).collect::<String>(), unhex(v.trim_start_matches("ok ")).chars().take(300).collect::<String>(), match e { Expect::Doc { text, .. } => text.chars().take(400).collect::<String>(), Expect::Tree(_) => lines[i].chars().take(200).collect() }));
+                            fail(&mut rep, format!("item {i} tag {tag} [{class}]: configuration `{n0}` gives {:?} but `{n}` gives {:?}\nitem: {}", unhex(v0.trim_start_matches("ok ")).chars().take(300).collect::<String>(), unhex(v.trim_start_matches("ok ")).chars().take(300).collect::<String>(), match e { Expect::Doc { text, .. } => text.chars().take(400).collect::<String>(), _ => lines[i].chars().take(200).collect() }));
                             break;
                         }
                     }
@@ -408,6 +445,17 @@ pub fn run(args: Args) -> ! {
                     }
                 }
             }
+            Expect::Ops { insertion, sorted } => {
+                for (name, m) in &tables {
+                    if let Some(v) = m.get(&(i, "TM".to_string())) {
+                        let w = if is_po(name) { insertion } else { sorted };
+                        if *v != hex(w) {
+                            fail(&mut rep, format!("item {i}: configuration `{name}`: after the call history {} toml::Table iterates as [{}], expected {} order [{w}]", lines[i], unhex(v), if is_po(name) { "insertion" } else { "sorted" }));
+                        }
+                        rep.stats.class("map-history-checked");
+                    }
+                }
+            }
             Expect::Tree(tree) => {
                 let mut want = String::new();
                 dump_tbl(tree, false, &mut want);
@@ -426,7 +474,7 @@ pub fn run(args: Args) -> ! {
         }
     }
     rep.extra.insert("configurations".into(), json!(configs.iter().map(|c| json!({"name": c.name, "features": c.features})).collect::<Vec<_>>()));
-    for c in ["config.default", "config.perf", "config.preserve_order", "config.edit-parse-only", "config.edit-display-only", "config.all-unbounded", "order.insertion-checked", "order.sorted-checked", "overlimit.accepted-unbounded", "overlimit.rejected-bounded"] {
+    for c in ["config.default", "config.perf", "config.preserve_order", "config.edit-parse-only", "config.edit-display-only", "config.all-unbounded", "order.insertion-checked", "order.sorted-checked", "map-history-checked", "overlimit.accepted-unbounded", "overlimit.rejected-bounded"] {
         rep.require_class(c);
     }
     rep.finish()
